@@ -60,7 +60,7 @@ def history(rng, nserv, length):
         elif r < 0.8:
             ev.append(("adv", rng.choice([0, 1, 2, 4, 6, 11, 31, 61])))
         elif r < 0.92:
-            ev.append(("fail", rng.randrange(nserv)))
+            ev.append(("fail", rng.randrange(nserv), rng.choice(["refused", "refused", "timeout", "unreachable", "reset"])))
         else:
             ev.append(("heal", rng.randrange(nserv)))
     return ev
@@ -83,6 +83,15 @@ def run_history(cfg, servers, events):
             ok = not down.get(self.name)
             contacts[self.name].append((clock.last, ok))
             if not ok:
+                # a server can fail in more than one way; every OSError-family error counts
+                how = down.get(self.name)
+                if how == "timeout":
+                    import socket as _s
+                    raise _s.timeout("timed out")
+                if how == "unreachable":
+                    raise OSError(113, "No route to host")
+                if how == "reset":
+                    raise ConnectionResetError(104, "reset")
                 raise ConnectionRefusedError("down")
             return result
 
@@ -120,7 +129,7 @@ def run_history(cfg, servers, events):
             if e[0] == "adv":
                 clock.last += e[1]
             elif e[0] == "fail":
-                down[hs.server_name(servers[e[1]])] = True
+                down[hs.server_name(servers[e[1]])] = e[2] if len(e) > 2 else True
                 ever_failed.add(hs.server_name(servers[e[1]]))
             elif e[0] == "heal":
                 down[hs.server_name(servers[e[1]])] = False
@@ -270,11 +279,12 @@ def search(ctx):
                     judge((ra, 5, 30, ign), 2, events)
     # the ignore_exc + set_many path specifically (a refusing server must be marked, not contacted on every call)
     for ra in (0, 1, 2):
-        events = [("fail", 0), ("fail", 1)] + [("op", "set_many", KEYS[:3])] * 6
+      for how in ("refused", "timeout", "unreachable", "reset"):
+        events = [("fail", 0, how), ("fail", 1, how)] + [("op", "set_many", KEYS[:3])] * 6
         contacts, escapes, nodes, dead, _ = run_history((ra, 5, 30, True), SERVERS[:2], events)
         for name, log in contacts.items():
             if not ctx.oracle.call(1, ra, 5, 30, [(t, o) for t, o in log])[1]:
-                found.append({"clause": "set_many with ignore_exc: refusing server %s contacted on every call (%d contacts at one instant), never marked failed" % (name, len(log)),
+                found.append({"clause": "set_many with ignore_exc: failing (%s) server %s contacted on every call (%d contacts at one instant), never marked failed" % (how, name, len(log)),
                               "input": {"retry_attempts": ra, "ignore_exc": True, "events": repr(events)}, "size": 0, "finding": None,
                               "case": repr(((ra, 5, 30, True), 2, events))})
                 break
